@@ -116,6 +116,10 @@ class IASolverBaseClass:  # pylint: disable=R0902
         """
         self._F = None
         self._full_F = None
+        # The full receive filters compensate the equivalent channel, which
+        # depends on the precoders
+        self._full_W_H = None
+        self._full_W = None
 
     def clear(self) -> None:
         """
@@ -435,6 +439,11 @@ class IASolverBaseClass:  # pylint: disable=R0902
         value : float | np.ndarray
             The new power of all users.
         """
+        # Quantities derived from the power must be calculated again
+        self._full_F = None
+        self._full_W_H = None
+        self._full_W = None
+
         if value is None:
             # Note that if self._P is None then the getter property will
             # return a numpy array of ones with the appropriated size.
